@@ -1,11 +1,11 @@
 ------------------------- MODULE MC_LimiterDesign -------------------------
 (* Exhaustive design check of Limiter on small constants (with Advance).       *)
 EXTENDS Integers, Sequences, FiniteSets, TLC
-CONSTANT DMaxT
+CONSTANTS DMaxT, Devs
 VARIABLES tokens, now, replies, last
 DSteps == [ a |-> [ ear |-> <<"E","A","R">>, aer |-> <<"A","E","R">>, multi |-> <<"E","A","R","E","A","R">>,
                     tok |-> <<"A">>, none |-> <<"E">> ],
             b |-> [ ear |-> <<"E","A","R">>, set |-> <<"E","A","E","R">> ] ]
 INSTANCE Limiter WITH Svcs <- {"a", "b"}, IPs <- {"i1", "i2"}, Ports <- {1},
-                      Burst <- 2, Q <- 2, Steps <- DSteps, MaxT <- DMaxT
+                      Burst <- 2, Q <- 2, Steps <- DSteps, MaxT <- DMaxT, Deviations <- Devs
 =============================================================================
